@@ -360,8 +360,29 @@ fn make_offer(ctx: &RunCtx, chain: &DataChain, cid: &Cid, id: SampleId, byzantin
         };
     }
     let truth = sq.eds.share(r, c).expect("in range").clone();
-    let fam = ctx.choose("byz.family", 9);
+    let fam = ctx.choose("byz.family", 10);
     match fam {
+        9 if w >= 4 && (r >= w / 2 || c >= w / 2) && (r < w / 2 || c < w / 2) => {
+            // the honest sample of the position half a width further along a parity line, with
+            // its proof range moved above u16::MAX so that the low 16 bits name the requested
+            // index (same sibling shape, so the range proof still recomputes the real root)
+            let (r2, c2, ax, idx) = if r >= w / 2 { (r, c + w / 2, AxisType::Row, c) } else { (r + w / 2, c, AxisType::Col, r) };
+            let other = Sample::new(r2, c2, ax, &sq.eds).expect("sample");
+            let same = other.share == truth;
+            let mut raw = RawSample::from(other);
+            if let Some(p) = raw.proof.as_mut() {
+                p.start = 65536 + idx as i64;
+                p.end = p.start + 1;
+            }
+            Offer {
+                bytes: raw_block(cid, &raw),
+                code: SAMPLE_ID_MULTIHASH_CODE,
+                label: if same { Label::Either } else { Label::MustReject },
+                position_substitution: true,
+                family: "proof_range_relabelled_above_u16",
+                true_share: same,
+            }
+        }
         0 | 1 => {
             // honest sample of another position in the same axis, re-wrapped under the wanted CID
             let (r2, c2, ax) = if fam == 0 {
